@@ -1,5 +1,6 @@
 import PartituraModel.Wire
 import PartituraModel.Model.Codec
+import PartituraModel.Model.CodecHist
 
 open Wire Model Model.Codec
 
@@ -54,6 +55,57 @@ def fmtPairs (l : List (Nat × Nat)) : String :=
 def fmtMRow (r : MRow) : String :=
   fmtTuple [fmtNat r.sidx, fmtRat r.so, fmtRat r.sd, fmtInt r.pitch, fmtRat r.po, fmtRat r.pd, fmtInt r.vel]
 
+def pMethod : P Method := do
+  let t ← tok
+  match t with
+  | "average" => pure .average
+  | "derivative" => pure .derivative
+  | _ => P.fail
+
+def pEdit : P SEdit := do
+  let t ← tok
+  match t with
+  | "move" => do let id ← str; let od ← int; let so ← rat; let sd ← rat; pure (.move id od so sd)
+  | "pitch" => do let id ← str; let p ← int; pure (.pitch id p)
+  | "del" => do let id ← str; pure (.del id)
+  | "add" => do let r ← pSRow; pure (.add r)
+  | _ => P.fail
+
+def pQuery : P Query := do
+  let t ← tok
+  match t with
+  | "ms" => do let ps ← list pPRow; let al ← list pARow; pure (.ms ps al)
+  | "enc" => do
+    let n ← parseNorm; let m ← pMethod; let sd ← rat; let ps ← list pPRow; let al ← list pARow
+    pure (.enc m n sd ps al)
+  | "tm" => do let ro ← bool; let ps ← list pPRow; let al ← list pARow; pure (.tm ro ps al)
+  | _ => P.fail
+
+def pHOp : P HOp := do
+  let t ← tok
+  match t with
+  | "e" => do let e ← pEdit; pure (.edit e)
+  | "q" => do let q ← pQuery; pure (.query q)
+  | _ => P.fail
+
+def fmtKnots (ks : List (Rat × Rat)) : String :=
+  fmtList (fun k : Rat × Rat => fmtTuple [fmtRat k.1, fmtRat k.2]) ks
+
+def fmtEnc (r : List (TParam × Rat) × List String) : String :=
+  fmtTuple [fmtList (fun s => s) r.2, fmtRats (r.1.map (·.1.bp)), fmtRats (r.1.map (·.1.timing)),
+            fmtRats (r.1.map (·.1.ratio)), fmtList fmtRats (r.1.map (·.1.cols)), fmtRats (r.1.map (·.2))]
+
+def fmtObs : Obs → String
+  | .ms none => "err"
+  | .ms (some (rows, ids)) =>
+    fmtList (fun (p : MRow × String) =>
+      fmtTuple [p.2, fmtRat p.1.so, fmtRat p.1.sd, fmtInt p.1.pitch, fmtRat p.1.po, fmtRat p.1.pd, fmtInt p.1.vel])
+      (rows.zip ids)
+  | .enc none => "err"
+  | .enc (some r) => fmtEnc r
+  | .tm none => "err"
+  | .tm (some ks) => fmtKnots ks
+
 def handle (ts : List String) : String :=
   match ts with
   | "ms" :: rest =>
@@ -106,6 +158,9 @@ def handle (ts : List String) : String :=
       (encodePerformance m n sd ss ps al).map fun (rows, ids) =>
         fmtTuple [fmtList (fun s => s) ids, fmtRats (rows.map (·.1.bp)), fmtRats (rows.map (·.1.timing)),
                   fmtRats (rows.map (·.1.ratio)), fmtList fmtRats (rows.map (·.1.cols)), fmtRats (rows.map (·.2))]
+  | "hist" :: rest =>
+    orErr <| (run (do let ss ← list pSRow; let h ← list pHOp; pure (ss, h)) rest).map fun (ss, h) =>
+      fmtList fmtObs (hrun ss h).2
   | "tma" :: rest =>
     orErr <| (run (do let ro ← bool; let t ← pTables; let qs ← list rat; let qp ← list rat
                       pure (ro, t, qs, qp)) rest).bind fun (ro, (ss, ps, al), qs, qp) =>
